@@ -37,7 +37,7 @@ def role_check(tier='quick', seed=0):
 
 
 def generic_cases():
-    kinds = ['a', 'a.b', 'a.b.c', "'x'", '"x"', '1', '1.5', 'True', 'None', 'class', '1+', '', 'a.0', '[', 'x y']
+    kinds = ['a', 'a.b', 'a.b.c', "'x'", '"x"', '1', '1.5', 'True', 'None', 'class', '1+', '', 'a.0', '[', 'x y', '{[]}', '{{}:1}']
     matches = ['x', '1', 'True', 'None', '%(t)s', '1.5']
     targets = [{}, {'t': 'x'}, {'t': 1}]
     creds = [{}, {'a': 'x'}, {'a': {'b': 'x'}}, {'a': [{'b': 'x'}, {'b': 'y'}]}, {'a': None}, {'a': 3},
@@ -47,7 +47,7 @@ def generic_cases():
 
 
 def generic_check(tier='quick', seed=0):
-    return _result('generic_check small-scope', 'all (kind, match, target, creds) over 15 left sides x 6 right sides x '
+    return _result('generic_check small-scope', 'all (kind, match, target, creds) over 17 left sides x 6 right sides x '
                    '3 targets x 13 credential shapes (every JSON type on the path)', generic_cases(), generic_case)
 
 
